@@ -7,7 +7,7 @@
 # strace delivers the signal when the N-th traced system call (write / pwrite64 / rename /
 # unlink on one of the data files) returns, i.e. the crash state is "the first N file
 # operations happened, nothing after them".
-import os, re, shutil, subprocess
+import os, re, shutil, subprocess, socket, threading, time
 from concurrent.futures import ThreadPoolExecutor
 
 SUFFIXES = ["-nun.data.keys", "-nun.data.values", "-nun.madadata", "-nun.data.keys.old", "-nun.data.values.old"]
@@ -53,7 +53,144 @@ def load_of(stderr):
     return []
 
 
-def run_case(case, drv, wd, phase_c, env_extra=None, kill_stride=1, extra_env_b=None):
+# ---- the real binary's view of a directory (src/bin/main.rs's own start-up sequence) ----------------
+_port_lock = threading.Lock()
+_port_next = [0]
+
+
+def _free_ports(k):
+    out = []
+    with _port_lock:
+        while len(out) < k:
+            _port_next[0] += 1
+            port = 20000 + (os.getpid() * 131 + _port_next[0]) % 20000
+            s = socket.socket()
+            try:
+                s.bind(("127.0.0.1", port)); out.append(port)
+            except OSError:
+                pass
+            finally:
+                s.close()
+    return out
+
+
+def tokens_of(ops):
+    """database name -> token, from the create-db commands of a case"""
+    toks = {}
+    for op in ops:
+        if op[0] == "cmd":
+            w = bytes.fromhex(op[2][1:]).decode("utf-8", "replace").split(" ")
+            if w[0] == "create-db" and len(w) >= 3:
+                toks[w[1]] = w[2]
+    return toks
+
+
+def esc(b):
+    return "".join(chr(c) if 0x20 < c < 0x7f and c not in (0x7b, 0x7d) else "{%02X}" % c for c in b) or "{}"
+
+
+def bin_view(binary, d, toks, timeout=8.0):
+    """start the real nun-db binary on a copy of the directory, read every database over TCP, kill it.
+    Returns 'START PANIC' or ' db=<name> keys=[k=v@ver,...]' sections in the phase-C dump's notation"""
+    tmp = d + ".bin"
+    shutil.rmtree(tmp, ignore_errors=True)
+    shutil.copytree(d, tmp)
+    tcp, ws, http = _free_ports(3)
+    env = dict(os.environ)
+    env.update({"NUN_DBS_DIR": tmp, "NUN_USER": "nun", "NUN_PWD": "pwd", "NUN_LOG_LEVEL": "Off", "RUST_BACKTRACE": "0",
+                "NUN_STORAGE_STRATEGY": "disk", "NUN_REPLICATE_ADDR": ""})
+    p = subprocess.Popen([binary, "start", "--tcp-address", "127.0.0.1:%d" % tcp, "--ws-address", "127.0.0.1:%d" % ws,
+                          "--http-address", "127.0.0.1:%d" % http], stdout=subprocess.DEVNULL, stderr=subprocess.DEVNULL, env=env, cwd=tmp)
+    try:
+        t0 = time.time()
+        sock = None
+        while time.time() - t0 < timeout:
+            if p.poll() is not None:
+                return "START PANIC"
+            try:
+                sock = socket.create_connection(("127.0.0.1", tcp), timeout=2)
+                break
+            except OSError:
+                time.sleep(0.01)
+        if sock is None:
+            return "START TIMEOUT"
+        sock.settimeout(5)
+        f = sock.makefile("rb")
+
+        def cmd(line):
+            sock.sendall(line.encode("utf-8") + b"\n")
+            out = []
+            while True:
+                l = f.readline()
+                if not l:
+                    return out, "EOF"
+                if l == b"ok \n":
+                    return out, "ok"
+                if l.startswith(b"error ") and l.endswith(b" \n"):
+                    return out, "error"
+                out.append(l)
+        if f.readline() != b"ok \n":
+            return "START NOGREETING"
+        cmd("auth nun pwd")
+        parts = []
+        for name in sorted(toks):
+            out, st = cmd("use-db %s %s" % (name, toks[name]))
+            if st != "ok":
+                # no such database, or its stored token is not the one it was created with (a torn values file)
+                parts.append(" db=%s DENIED" % esc(name.encode()))
+                continue
+            out, st = cmd("keys")
+            keys = []
+            for l in out:
+                if l.startswith(b"keys "):
+                    keys = [k for k in l[5:-1].split(b",") if k]
+            items = []
+            for k in sorted(keys):
+                if k.startswith(b"$$") or k == b"$connections":
+                    continue
+                out, st = cmd("get-safe " + k.decode("utf-8", "replace"))
+                for l in out:
+                    if l.startswith(b"value-version "):
+                        ver, _, val = l[14:-1].partition(b" ")
+                        items.append("%s=%s@%s" % (esc(k), esc(val), ver.decode()))
+            parts.append(" db=%s keys=[%s]" % (esc(name.encode()), ",".join(items)))
+        return "".join(parts)
+    except Exception as e:
+        return "BIN-ERROR %r" % (e,)
+    finally:
+        p.kill()
+        p.wait()
+        shutil.rmtree(tmp, ignore_errors=True)
+
+
+def mirror_view(txt, toks):
+    """the same sections taken from the phase-C dump (harness start-up mirror + direct access to the maps)"""
+    if "START PANIC" in txt or "START DIED" in txt:
+        return "START PANIC"
+    parts = []
+    for name in sorted(toks):
+        m = re.search(r" db=%s id=\d+ strat=\S+ (?:conn=-?\d+ )?keys=\[(.*?)\](?: watch=\[.*?\])?(?= db=| FILES|$| [a-z]+\.[a-z])" % re.escape(esc(name.encode())), txt)
+        if not m:
+            parts.append(" db=%s DENIED" % esc(name.encode()))
+            continue
+        its = m.group(1).split(",") if m.group(1) else []
+        tok = [it for it in its if it.startswith("$$token=")]
+        if not tok or tok[0].split("=", 1)[1].rsplit("@", 1)[0] != esc(toks[name].encode()) or tok[0].rsplit("@", 1)[1].split("/")[1:2] == ["D"]:
+            parts.append(" db=%s DENIED" % esc(name.encode()))
+            continue
+        items = []
+        for it in its:
+            k, rest = it.split("=", 1)
+            val, meta = rest.rsplit("@", 1)
+            mm = meta.split("/")
+            if k.startswith("$$") or k == "$connections" or (len(mm) > 1 and mm[1] == "D"):
+                continue
+            items.append("%s=%s@%s" % (k, val, mm[0]))
+        parts.append(" db=%s keys=[%s]" % (esc(name.encode()), ",".join(sorted(items))))
+    return "".join(parts)
+
+
+def run_case(case, drv, wd, phase_c, env_extra=None, kill_stride=1, extra_env_b=None, binary=None, bin_stride=7):
     """returns {"obs": [...], "aux": [...]}"""
     cid, hdr, ops = case
     os.makedirs(wd, exist_ok=True)
@@ -86,11 +223,24 @@ def run_case(case, drv, wd, phase_c, env_extra=None, kill_stride=1, extra_env_b=
             obs.append("A-DIED rc=%d" % rc)
             return {"obs": obs, "aux": aux}
 
-    def phase_c_run(d):
+    toks = tokens_of(ops)
+    bin_count = [0]
+
+    def phase_c_run(d, force_bin=False):
+        bv = None
+        if binary and (force_bin or bin_count[0] % bin_stride == 0):
+            bv = bin_view(binary, d, toks)      # before the mirror: its start-up may rewrite the directory
+        bin_count[0] += 1
         rc, out, err = _run([drv, phase_c, d], env)
         txt = " ".join(l for l in out if l)
         if rc != 0 and "START" not in txt:
             txt = "START DIED rc=%d" % rc
+        if bv is not None:
+            mv = mirror_view(txt, toks)
+            if bv == mv:
+                aux.append("#bin same")
+            else:
+                aux.append("#bin DIFF binary[%s] mirror[%s]" % (bv, mv))
         return txt, load_of(err)
 
     # N = 0: the directory as part A left it
